@@ -360,6 +360,13 @@ def run(ck: Check):
                 if rejected <= 4:
                     ck.obligation(f"correspondence:trace-accepted:scenario{t[0]['id']}-p{t[1]}", False,
                                   f"model rejects event #{v - 1} {t[2][v - 1] if v - 1 < len(t[2]) else None}")
+                    ev = t[2][v - 1] if v - 1 < len(t[2]) else None
+                    ck.violation(f"the real producer did something the batch life-cycle model (whose guards are the "
+                                 f"property's clauses) does not allow: partition {t[1]} of scenario {t[0]['id']}, event "
+                                 f"#{v - 1} {ev} after {t[2][max(0, v - 7):v - 1]}",
+                                 {"scenario": t[0], "partition": t[1], "rejected_event_index": v - 1,
+                                  "context": t[2][max(0, v - 9):v]},
+                                 signature=f"trace-rejected:{ev[0] if ev else ''}")
     ck.obligation("correspondence:all-traces-with-final-FlushRet-accepted", rejected == 0 and fail == 0,
                   f"{rejected} rejected, {fail} files failed")
     ck.cov["traces_validated_against_impl"] = len(traces) - rejected
